@@ -6,7 +6,8 @@ model stage : MC_LineIndex — for every text over {other,LF,CR} in scope, the g
               abstract ToLineCol; cache invariant; round trip; Starts definitional sanity.
 trace stage : real text::LineIndex (hooks build; cache triple logged after each call) and the
               JsonIndex/YamlIndex wrappers, validated by Trace_LineIndex.tla with the real CAP=16:
-              the spec predicts answer AND next cache exactly.
+              every answer = the pure answer; the hooked cache must satisfy the documented
+              representation invariant after every call (its exact content is not prescribed).
 
 Interpretation: offsets are explored up to 2^31-2 (largest whose column fits a TLC integer);
 to_offset with a huge line or column must answer None (the result is past the end).
